@@ -287,6 +287,8 @@ def sensor_to_categorical(sensor_timestamps, sensor_values, dump_midtimes, dump_
         events = np.r_[HOLE_c10_initial_dump(), events]
     events[0] = HOLE_c10_first_dump()
     greedy_values = () if greedy_values is None else greedy_values
+    if wrapped_values:
+        greedy_values = [ComparableArrayWrapper(ComparableArrayWrapper.unwrap(value)) for value in greedy_values]
     greedy = [value in greedy_values for value in sensor_values]
     events = np.r_[events, HOLE_c10_terminator(num_dumps)]
     cleaned_up = list(_single_event_per_dump(events, greedy))
@@ -330,11 +332,14 @@ def item_c10_s2c(repo, out):
             [('len(events)', 'len_events', Z), ('events[0]', 'first_event_dump', Z), ('initial_value is not None', 'has_initial', B)], B)
     sk.hole(b + [14, 'body', 2, 'value', 'slice', 'elts', 0], 'c10_initial_dump', [], Z)
     sk.hole(b + [15, 'value'], 'c10_first_dump', [], Z)
-    sk.hole(b + [18, 'value', 'slice', 'elts', 1], 'c10_terminator', [('num_dumps', 'num_dumps', Z)], Z)
-    sk.hole(b + [22, 'test'], 'c10_remove_repeats', [('allow_repeats', 'allow_repeats', B)], B)
-    sk.hole(b + [22, 'body', 0, 'value', 'generators', 0, 'ifs', 0], 'c10_changes_value',
+    # (statement 17 = `if wrapped_values: greedy_values = [wrapped ...]`: the repair of finding F27 - greedy membership of
+    #  array-valued sensors compares WRAPPED values, i.e. goes through ComparableArrayWrapper.__eq__ = caw_eq_src; the
+    #  unrepaired source, which compares a wrapped value with whatever was handed over, is refused by the skeleton)
+    sk.hole(b + [19, 'value', 'slice', 'elts', 1], 'c10_terminator', [('num_dumps', 'num_dumps', Z)], Z)
+    sk.hole(b + [23, 'test'], 'c10_remove_repeats', [('allow_repeats', 'allow_repeats', B)], B)
+    sk.hole(b + [23, 'body', 0, 'value', 'generators', 0, 'ifs', 0], 'c10_changes_value',
             [('n', 'n', Z), ('sensor_values[n] != sensor_values[n - 1]', 'differs_from_previous', B)], B)
-    sk.hole(b + [23, 'value', 'args', 1, 'slice', 'elts', 1], 'c10_final_event', [('num_dumps', 'num_dumps', Z)], Z)
+    sk.hole(b + [24, 'value', 'args', 1, 'slice', 'elts', 1], 'c10_final_event', [('num_dumps', 'num_dumps', Z)], Z)
     sk.finish(S2C_SKELETON)
 
 
@@ -387,6 +392,22 @@ def _lookup(self, dumps):
 '''
 
 
+GETITEM_TAIL = '''
+try:
+    if not values:
+        all_possible_values = np.array(self.unique_values)
+        dtype = all_possible_values.dtype
+        shape = all_possible_values.shape
+        return np.empty((0,) + shape[1:], dtype)
+    return np.array(values)
+except ValueError:
+    ragged = np.empty(len(values), dtype=object)
+    for (n, value) in enumerate(values):
+        ragged[n] = value
+    return ragged
+'''
+
+
 def item_c10_catdata(repo, out):
     tree = _parse(repo, CAT)
     out.append('(* katdal/categorical.py CategoricalData.__init__ / _lookup / __getitem__(slice) *)')
@@ -415,8 +436,12 @@ def item_c10_catdata(repo, out):
     if got != want:
         bad = next(k for k in range(3) if k >= len(got) or got[k] != want[k])
         raise TranslateError('CategoricalData.__getitem__: statement %d is `%s`' % (bad + 1, (got[bad] if bad < len(got) else '')[:100]))
-    if _txt(body[-1]) != 'return np.array(values)':
-        raise TranslateError('CategoricalData.__getitem__: does not end with `return np.array(values)`')
+    # the per-dump values are stacked; values of different shapes (np.array refuses them: finding F112, repaired) are
+    # delivered as a 1-d object array with ONE entry per selected dump, in the same order
+    if len(body) != 4 or _txt(body[-1]) != normalise_source(GETITEM_TAIL.strip()).strip():
+        raise TranslateError('CategoricalData.__getitem__: does not end with `try: ... return np.array(values)` / `except ValueError:` '
+                             '-> object array with one entry per selected value (found `%s`)'
+                             % _txt(body[-1])[:80].replace('\n', ' / '))
 
 
 # --------------------------------------------------------------------------------------------- the public path
